@@ -318,6 +318,10 @@ func (t *Dense) fix() {
 func (t *Dense) makeMask() {
 	var size int
 	size = t.shape.TotalSize()
+	if l := t.len(); l > size {
+		// a mask is indexed by storage position: the mask of a view has to span the view's whole storage window
+		size = l
+	}
 	if len(t.mask) >= size {
 		t.mask = t.mask[:size]
 	}
